@@ -24,8 +24,9 @@ let tool_case (s : sexp) : string =
       let find nm = try Some (List.assoc nm table) with Not_found -> None in
       let exists_ nm = (match find nm with Some (e, _) -> e | None -> false) in
       let lib_items nm = (match find nm with Some (_, its) -> List.map fst its | None -> []) in
-      let all_items = List.concat (List.map (fun (_, (_, its)) -> its) table) in
-      let outcome_ok ex = List.for_all (fun it -> try List.assoc it all_items with Not_found -> true) ex in
+      let outcome_ok lib ex =
+        let its = (match find lib with Some (_, its) -> its | None -> []) in
+        List.for_all (fun it -> try List.assoc it its with Not_found -> true) ex in
       let pairs = scan_args exists_ (List.map nb args) in
       let (fail, exs) = main_m single_run_by_item_name exists_ lib_items outcome_ok pairs in
       (if fail then "1" else "0") ^ " | " ^
